@@ -452,4 +452,146 @@ theorem readFileCB_sim (fs : FS) (cb1 cb2 : Callback) (s1 s2 : RdState) (join py
           · rw [readOpened_sec]; simp only; rw [h2g]
 
 
+theorem gate_secOf (g1 g2 : Global) (h : secOf g1 = secOf g2) (node : Node) : gate g1 node = gate g2 node := by
+  unfold secOf at h
+  simp only [Prod.mk.injEq] at h
+  unfold gate
+  rw [h.1, h.2.1, h.2.2.1, h.2.2.2.1, h.2.2.2.2]
+
+
+theorem readSeq_sim (fs : FS) (cb1 cb2 : Callback) (join python : Bool) (delim comment : Str)
+    (ha : ∀ k1 k2 p, accepts cb1 k1 p = accepts cb2 k2 p) (paths : List Str) (s1 s2 : RdState)
+    (hd : dataOf s1.g = dataOf s2.g)
+    (hg : ∀ p ∈ paths, ∀ node, fs.lstat p = some node → gate s1.g node = gate s2.g node) :
+    (readSeq { fs := fs, cb := cb1 } join python delim comment s1 paths).2 = (readSeq { fs := fs, cb := cb2 } join python delim comment s2 paths).2 ∧
+    dataOf (readSeq { fs := fs, cb := cb1 } join python delim comment s1 paths).1.g = dataOf (readSeq { fs := fs, cb := cb2 } join python delim comment s2 paths).1.g ∧
+    secOf (readSeq { fs := fs, cb := cb1 } join python delim comment s1 paths).1.g = secOf s1.g ∧
+    secOf (readSeq { fs := fs, cb := cb2 } join python delim comment s2 paths).1.g = secOf s2.g := by
+  induction paths generalizing s1 s2 with
+  | nil => exact ⟨rfl, hd, rfl, rfl⟩
+  | cons p ps ih =>
+    have hf := readFileCB_sim fs cb1 cb2 s1 s2 join python p delim comment hd (hg p List.mem_cons_self) (ha _ _ _)
+    obtain ⟨hr, hd', hs1, hs2⟩ := hf
+    simp only [readSeq]
+    generalize hx1 : readFileCB { fs := fs, cb := cb1 } s1 join python p delim comment = x1 at hr hd' hs1
+    generalize hx2 : readFileCB { fs := fs, cb := cb2 } s2 join python p delim comment = x2 at hr hd' hs2
+    obtain ⟨t1, r1⟩ := x1
+    obtain ⟨t2, r2⟩ := x2
+    simp only at hr hd' hs1 hs2 ⊢
+    subst hr
+    cases r1 with
+    | error e => exact ⟨rfl, hd', hs1, hs2⟩
+    | ok kf =>
+      simp only
+      have hg' : ∀ q ∈ ps, ∀ node, fs.lstat q = some node → gate t1.g node = gate t2.g node := by
+        intro q hq node hn
+        rw [gate_secOf t1.g s1.g hs1, gate_secOf t2.g s2.g hs2]
+        exact hg q (List.mem_cons_of_mem _ hq) node hn
+      obtain ⟨hr2, hd2, hsa, hsb⟩ := ih t1 t2 hd' hg'
+      generalize readSeq { fs := fs, cb := cb1 } join python delim comment t1 ps = y1 at hr2 hd2 hsa
+      generalize readSeq { fs := fs, cb := cb2 } join python delim comment t2 ps = y2 at hr2 hd2 hsb
+      obtain ⟨u1, q1⟩ := y1
+      obtain ⟨u2, q2⟩ := y2
+      simp only at hr2 hd2 hsa hsb ⊢
+      subst hr2
+      cases q1 with
+      | error e => exact ⟨rfl, hd2, hsa.trans hs1, hsb.trans hs2⟩
+      | ok kfs => exact ⟨rfl, hd2, hsa.trans hs1, hsb.trans hs2⟩
+
+theorem readFirst_sim (fs : FS) (cb1 cb2 : Callback) (join python : Bool) (delim comment : Str)
+    (ha : ∀ k1 k2 p, accepts cb1 k1 p = accepts cb2 k2 p) (paths : List Str) (s1 s2 : RdState)
+    (hd : dataOf s1.g = dataOf s2.g)
+    (hg : ∀ p ∈ paths, ∀ node, fs.lstat p = some node → gate s1.g node = gate s2.g node) :
+    (readFirst { fs := fs, cb := cb1 } join python delim comment s1 paths).2 = (readFirst { fs := fs, cb := cb2 } join python delim comment s2 paths).2 ∧
+    dataOf (readFirst { fs := fs, cb := cb1 } join python delim comment s1 paths).1.g = dataOf (readFirst { fs := fs, cb := cb2 } join python delim comment s2 paths).1.g ∧
+    secOf (readFirst { fs := fs, cb := cb1 } join python delim comment s1 paths).1.g = secOf s1.g ∧
+    secOf (readFirst { fs := fs, cb := cb2 } join python delim comment s2 paths).1.g = secOf s2.g := by
+  induction paths generalizing s1 s2 with
+  | nil => exact ⟨rfl, hd, rfl, rfl⟩
+  | cons p ps ih =>
+    have hf := readFileCB_sim fs cb1 cb2 s1 s2 join python p delim comment hd (hg p List.mem_cons_self) (ha _ _ _)
+    obtain ⟨hr, hd', hs1, hs2⟩ := hf
+    simp only [readFirst]
+    generalize hx1 : readFileCB { fs := fs, cb := cb1 } s1 join python p delim comment = x1 at hr hd' hs1
+    generalize hx2 : readFileCB { fs := fs, cb := cb2 } s2 join python p delim comment = x2 at hr hd' hs2
+    obtain ⟨t1, r1⟩ := x1
+    obtain ⟨t2, r2⟩ := x2
+    simp only at hr hd' hs1 hs2 ⊢
+    subst hr
+    cases r1 with
+    | ok kf => exact ⟨rfl, hd', hs1, hs2⟩
+    | error e =>
+      have hg' : ∀ q ∈ ps, ∀ node, fs.lstat q = some node → gate t1.g node = gate t2.g node := by
+        intro q hq node hn
+        rw [gate_secOf t1.g s1.g hs1, gate_secOf t2.g s2.g hs2]
+        exact hg q (List.mem_cons_of_mem _ hq) node hn
+      obtain ⟨hr2, hd2, hsa, hsb⟩ := ih t1 t2 hd' hg'
+      cases e <;> first
+        | exact ⟨hr2, hd2, hsa.trans hs1, hsb.trans hs2⟩
+        | exact ⟨rfl, hd', hs1, hs2⟩
+
+
+/-- two history reads from related states agree when gates and callbacks decide alike on every
+    path that can be consulted -/
+theorem readHistory_sim (fs : FS) (cb1 cb2 : Callback) (ha : ∀ k1 k2 p, accepts cb1 k1 p = accepts cb2 k2 p)
+    (s1 s2 : RdState) (hd : dataOf s1.g = dataOf s2.g)
+    (dirs : List Str) (name suffix : Option Str) (delim : Option Str) (comment : Str) (join python : Bool) (confDirs : List Str)
+    (hg : ∀ p node, fs.lstat p = some node → gate s1.g node = gate s2.g node) :
+    (readHistory { fs := fs, cb := cb1 } s1 dirs name suffix delim comment join python confDirs).2 =
+      (readHistory { fs := fs, cb := cb2 } s2 dirs name suffix delim comment join python confDirs).2 ∧
+    dataOf (readHistory { fs := fs, cb := cb1 } s1 dirs name suffix delim comment join python confDirs).1.g =
+      dataOf (readHistory { fs := fs, cb := cb2 } s2 dirs name suffix delim comment join python confDirs).1.g := by
+  unfold readHistory
+  cases delim with
+  | none => exact ⟨rfl, hd⟩
+  | some dl =>
+    cases name with
+    | none => exact ⟨rfl, hd⟩
+    | some nm =>
+      simp only
+      by_cases hne : nm.isEmpty = true
+      · simp only [hne, if_true]
+        obtain ⟨hr, hd2, _, _⟩ := readSeq_sim fs cb1 cb2 join python dl comment ha
+          (dropinPaths fs dirs nm (dotSuffix (some nm) suffix) (if confDirs.isEmpty then [dotSuffix (some nm) suffix ++ [0x2e, 0x64]] else confDirs))
+          s1 s2 hd (fun p _ node hn => hg p node hn)
+        generalize readSeq { fs := fs, cb := cb1 } join python dl comment s1 _ = y1 at hr hd2
+        generalize readSeq { fs := fs, cb := cb2 } join python dl comment s2 _ = y2 at hr hd2
+        obtain ⟨u1, q1⟩ := y1
+        obtain ⟨u2, q2⟩ := y2
+        simp only at hr hd2 ⊢
+        subst hr
+        cases q1 with
+        | error e => exact ⟨rfl, hd2⟩
+        | ok drops => simp only; split <;> exact ⟨rfl, hd2⟩
+      · have hne' : nm.isEmpty = false := by simpa using hne
+        simp only [hne', Bool.false_eq_true, if_false]
+        obtain ⟨hm, hdm, hs1, hs2⟩ := readFirst_sim fs cb1 cb2 join python dl comment ha
+          (mainCandidates dirs nm (dotSuffix (some nm) suffix)) s1 s2 hd (fun p _ node hn => hg p node hn)
+        generalize readFirst { fs := fs, cb := cb1 } join python dl comment s1 _ = x1 at hm hdm hs1
+        generalize readFirst { fs := fs, cb := cb2 } join python dl comment s2 _ = x2 at hm hdm hs2
+        obtain ⟨t1, m1⟩ := x1
+        obtain ⟨t2, m2⟩ := x2
+        simp only at hm hdm hs1 hs2 ⊢
+        subst hm
+        cases m1 with
+        | error e => exact ⟨rfl, hdm⟩
+        | ok main =>
+          simp only
+          have hg' : ∀ p node, fs.lstat p = some node → gate t1.g node = gate t2.g node := by
+            intro p node hn
+            rw [gate_secOf t1.g s1.g hs1, gate_secOf t2.g s2.g hs2]; exact hg p node hn
+          obtain ⟨hr, hd2, _, _⟩ := readSeq_sim fs cb1 cb2 join python dl comment ha
+            (dropinPaths fs dirs nm (dotSuffix (some nm) suffix) (if confDirs.isEmpty then [dotSuffix (some nm) suffix ++ [0x2e, 0x64]] else confDirs))
+            t1 t2 hdm (fun p _ node hn => hg' p node hn)
+          generalize readSeq { fs := fs, cb := cb1 } join python dl comment t1 _ = y1 at hr hd2
+          generalize readSeq { fs := fs, cb := cb2 } join python dl comment t2 _ = y2 at hr hd2
+          obtain ⟨u1, q1⟩ := y1
+          obtain ⟨u2, q2⟩ := y2
+          simp only at hr hd2 ⊢
+          subst hr
+          cases q1 with
+          | error e => exact ⟨rfl, hd2⟩
+          | ok drops => simp only; split <;> exact ⟨rfl, hd2⟩
+
+
 end Econf
